@@ -111,6 +111,14 @@ CharOf(cs, j) ==
     [] cs = "utf8" -> <<97, 228, 8364, 122>>[(j % 4) + 1]         \* a, a-umlaut (2 octets), euro sign (3 octets), z
 \* one character outside the alphabet of cs (C06)
 BadChar(cs) == CASE cs = "num" -> 65 [] cs = "prt" -> 42 [] cs = "vis" -> 127 [] cs = "ia5" -> 128 [] cs = "utf8" -> 0
+\* ... the neighbours of the alphabet on both sides, and characters beyond one octet whose LOW octet is a legal character
+\* (U+0141 -> 'A', U+0130 -> '0', U+4E2D -> '-'): an implementation that narrows before it checks lets them through
+BadChars(cs) ==
+  CASE cs = "num" -> <<65, 47, 58, 304, 288>>
+    [] cs = "prt" -> <<42, 64, 321, 20013>>
+    [] cs = "vis" -> <<127, 31, 128, 321, 20013>>
+    [] cs = "ia5" -> <<128, 255, 321, 20013>>
+    [] cs = "utf8" -> <<>>
 
 RECURSIVE Rep(_), Values(_)
 
@@ -172,7 +180,9 @@ Values(t) ==
                              good == ListOfLen(t, n)
                              ps == SetToSeq({1, (n + 1) \div 2, n} \cap 1..n)
                          IN [j \in 1..Len(ls) |-> ListOfLen(t, ls[j])]
-                            \o (IF t.cs = "utf8" THEN <<>> ELSE [j \in 1..Len(ps) |-> [good EXCEPT ![ps[j]] = BadChar(t.cs)]])
+                            \o (IF t.cs = "utf8" \/ n = 0 THEN <<>>
+                                ELSE [j \in 1..Len(ps) |-> [good EXCEPT ![ps[j]] = BadChar(t.cs)]]
+                                     \o [j \in 1..Len(BadChars(t.cs)) |-> [good EXCEPT ![ps[(j % Len(ps)) + 1]] = BadChars(t.cs)[j]]])
     [] t.k = "seq"    -> SeqVals(t)
     [] t.k = "choice" -> Concat([a \in 1..Len(t.alts) |->
                                    LET r == Rep(t.alts[a]) IN [j \in 1..Len(r) |-> [i |-> a - 1, v |-> r[j]]]])
